@@ -3,6 +3,11 @@
 
 package nbhttp
 
+import (
+	"net/http"
+	"sort"
+)
+
 // VerifCacheLen returns the number of unparsed bytes the parser retains.
 func (p *Parser) VerifCacheLen() int {
 	if p.bytesCached == nil {
@@ -13,3 +18,113 @@ func (p *Parser) VerifCacheLen() int {
 
 // VerifState returns the parser state number.
 func (p *Parser) VerifState() int { return int(p.state) }
+
+// ---- finite-domain functions tabulated by `hhttp facts` (DESIGN 2.4b)
+
+func VerifIsToken(c byte) bool           { return isToken(c) }
+func VerifIsHex(c byte) bool             { return isHex(c) }
+func VerifIsNum(c byte) bool             { return isNum(c) }
+func VerifIsAlpha(c byte) bool           { return isAlpha(c) }
+func VerifIsValidMethodChar(c byte) bool { return isValidMethodChar(c) }
+func VerifIsValidMethod(m string) bool   { return isValidMethod(m) }
+
+// VerifValidMethods returns the keys of validMethods that are true, sorted.
+func VerifValidMethods() []string {
+	var ms []string
+	for m, ok := range validMethods {
+		if ok {
+			ms = append(ms, m)
+		}
+	}
+	sort.Strings(ms)
+	return ms
+}
+
+// VerifStateEnum lists the parser state constants (name of the Lean constructor, Go constant, value)
+// in the order of the Lean inductive `Http.PState`.
+func VerifStateEnum() [][3]interface{} {
+	return [][3]interface{}{
+		{"close", "stateClose", int(stateClose)},
+		{"methodBefore", "stateMethodBefore", int(stateMethodBefore)},
+		{"method", "stateMethod", int(stateMethod)},
+		{"pathBefore", "statePathBefore", int(statePathBefore)},
+		{"path", "statePath", int(statePath)},
+		{"protoBefore", "stateProtoBefore", int(stateProtoBefore)},
+		{"proto", "stateProto", int(stateProto)},
+		{"protoLF", "stateProtoLF", int(stateProtoLF)},
+		{"clientProtoBefore", "stateClientProtoBefore", int(stateClientProtoBefore)},
+		{"clientProto", "stateClientProto", int(stateClientProto)},
+		{"statusCodeBefore", "stateStatusCodeBefore", int(stateStatusCodeBefore)},
+		{"statusCode", "stateStatusCode", int(stateStatusCode)},
+		{"statusBefore", "stateStatusBefore", int(stateStatusBefore)},
+		{"status", "stateStatus", int(stateStatus)},
+		{"statusLF", "stateStatusLF", int(stateStatusLF)},
+		{"headerKeyBefore", "stateHeaderKeyBefore", int(stateHeaderKeyBefore)},
+		{"headerValueLF", "stateHeaderValueLF", int(stateHeaderValueLF)},
+		{"headerKey", "stateHeaderKey", int(stateHeaderKey)},
+		{"headerValueBefore", "stateHeaderValueBefore", int(stateHeaderValueBefore)},
+		{"headerValue", "stateHeaderValue", int(stateHeaderValue)},
+		{"bodyContentLength", "stateBodyContentLength", int(stateBodyContentLength)},
+		{"headerOverLF", "stateHeaderOverLF", int(stateHeaderOverLF)},
+		{"chunkSizeBefore", "stateBodyChunkSizeBefore", int(stateBodyChunkSizeBefore)},
+		{"chunkSize", "stateBodyChunkSize", int(stateBodyChunkSize)},
+		{"chunkSizeLF", "stateBodyChunkSizeLF", int(stateBodyChunkSizeLF)},
+		{"chunkData", "stateBodyChunkData", int(stateBodyChunkData)},
+		{"chunkDataCR", "stateBodyChunkDataCR", int(stateBodyChunkDataCR)},
+		{"chunkDataLF", "stateBodyChunkDataLF", int(stateBodyChunkDataLF)},
+		{"trValueLF", "stateBodyTrailerHeaderValueLF", int(stateBodyTrailerHeaderValueLF)},
+		{"trKeyBefore", "stateBodyTrailerHeaderKeyBefore", int(stateBodyTrailerHeaderKeyBefore)},
+		{"trKey", "stateBodyTrailerHeaderKey", int(stateBodyTrailerHeaderKey)},
+		{"trValueBefore", "stateBodyTrailerHeaderValueBefore", int(stateBodyTrailerHeaderValueBefore)},
+		{"trValue", "stateBodyTrailerHeaderValue", int(stateBodyTrailerHeaderValue)},
+		{"tailCR", "stateTailCR", int(stateTailCR)},
+		{"tailLF", "stateTailLF", int(stateTailLF)},
+	}
+}
+
+// VerifHeaderNames returns the three framing header names the parser records.
+func VerifHeaderNames() [3]string {
+	return [3]string{transferEncodingHeader, trailerHeader, contentLengthHeader}
+}
+
+// VerifMaxInt is the parser's MaxInt constant.
+func VerifMaxInt() int64 { return MaxInt }
+
+// ---- framing-metadata functions (sampled differential, C08)
+
+// VerifParseChunkSize runs parseAndValidateChunkSize.
+func VerifParseChunkSize(s string) (int, error) { return parseAndValidateChunkSize(s) }
+
+// VerifFraming runs parseTransferEncoding, parseContentLength and parseTrailer (the three calls made at
+// the blank line, in that order) on a parser whose recorded framing headers are the given values.
+// It returns (chunked, contentLength, sorted declared trailer keys, index of the failing step 0..3, error).
+func VerifFraming(te, cl, tr []string) (bool, int, []string, int, error) {
+	p := &Parser{}
+	if te != nil || cl != nil || tr != nil {
+		p.header = http.Header{}
+	}
+	if te != nil {
+		p.header[transferEncodingHeader] = te
+	}
+	if cl != nil {
+		p.header[contentLengthHeader] = cl
+	}
+	if tr != nil {
+		p.header[trailerHeader] = tr
+	}
+	if err := p.parseTransferEncoding(); err != nil {
+		return false, 0, nil, 1, err
+	}
+	if err := p.parseContentLength(); err != nil {
+		return p.chunked, 0, nil, 2, err
+	}
+	if err := p.parseTrailer(); err != nil {
+		return p.chunked, p.contentLength, nil, 3, err
+	}
+	var ks []string
+	for k := range p.trailer {
+		ks = append(ks, k)
+	}
+	sort.Strings(ks)
+	return p.chunked, p.contentLength, ks, 0, nil
+}
